@@ -4,13 +4,17 @@ C15 helper lemmas, part 1: the 2-D kernels of `_halfplanes.py` at `α := ℝ`.
 * `intersectTwo_some`            : a returned intersection point lies on both boundary lines and the
                                    lines were not flagged parallel;
 * `validPoint_iff`               : what the innermost loop decides;
-* `intersectHalfplanes_spec`     : every returned point comes from a pair `i < j`, is their
-                                   intersection and passed the validity loop; fewer than `3 n` points;
-* `intersectHalfplanes_ok_of_le_six` : for `1 ≤ n ≤ 6` half-planes neither the checked write nor the
-                                   assertion can fail;
-* `concurrent_overflow` / `concurrent_assert` : half-planes through one point with pairwise
-                                   non-parallel lines make every pair valid (28 > 24 rows: `indexOOB`;
-                                   21 = 21 rows: `assertFail`).
+* `intersectHalfplanesWith_spec` / `intersectHalfplanes_spec` : every returned point comes from a pair
+                                   `i < j`, is their intersection and passed the validity loop; fewer
+                                   points than buffer rows;
+* `pairIdx_length`               : the double loop visits `n (n-1) / 2` pairs;
+* `intersectHalfplanes_total`    : with the `n (n-1) / 2 + 1` row buffer neither the checked write nor
+                                   the assertion can fail, for every list of half-planes (also the empty one);
+* before the repair (`3 n` rows): `intersectHalfplanes_before_fix_ok_of_le_six`,
+  `concurrent_overflow_before_fix` / `concurrent_assert_before_fix` / `empty_assert_before_fix`
+  (half-planes through one point with pairwise non-parallel lines make every pair valid: 28 > 24
+  rows: `indexOOB`; 21 = 21 rows: `assertFail`; the empty list: `0 < 0` fails) and their repaired
+  counterparts `concurrent_fixed`, `empty_fixed`.
 -/
 import D3.Spec.Vec
 import D3.Model.Hydro
@@ -153,29 +157,43 @@ theorem ihStep_inv (hps : List (HP ℝ)) (cap : Nat) (acc : List (V2 ℝ)) (ij :
       · cases h; exact hacc
   · cases h
 
-theorem intersectHalfplanes_unfold (hps : List (HP ℝ)) (res : List (V2 ℝ))
-    (h : intersectHalfplanes hps = .ok res) :
-    (pairIdx hps.length).foldlM (ihStep hps (bufferRows hps.length)) [] = .ok res ∧
-      res.length < bufferRows hps.length := by
-  unfold intersectHalfplanes at h
+theorem intersectHalfplanesWith_unfold (rows : Nat → Nat) (hps : List (HP ℝ)) (res : List (V2 ℝ))
+    (h : intersectHalfplanesWith rows hps = .ok res) :
+    (pairIdx hps.length).foldlM (ihStep hps (rows hps.length)) [] = .ok res ∧
+      res.length < rows hps.length := by
+  unfold intersectHalfplanesWith at h
   obtain ⟨acc, h1, h2⟩ := except_bind_ok h
   split at h2
   · cases h2; exact ⟨h1, by assumption⟩
   · cases h2
 
-/-- `intersect_halfplanes`: every returned point is the intersection of two of the boundary
-lines (`i < j`, not flagged parallel) and passed the validity loop; fewer than `3 n` points -/
-theorem intersectHalfplanes_spec (hps : List (HP ℝ)) (res : List (V2 ℝ))
-    (h : intersectHalfplanes hps = .ok res) :
-    (∀ p ∈ res, FromPair hps p) ∧ res.length < 3 * hps.length := by
-  obtain ⟨h1, h2⟩ := intersectHalfplanes_unfold hps res h
+/-- `intersect_halfplanes` (any buffer size): every returned point is the intersection of two of
+the boundary lines (`i < j`, not flagged parallel) and passed the validity loop; fewer points
+than buffer rows -/
+theorem intersectHalfplanesWith_spec (rows : Nat → Nat) (hps : List (HP ℝ)) (res : List (V2 ℝ))
+    (h : intersectHalfplanesWith rows hps = .ok res) :
+    (∀ p ∈ res, FromPair hps p) ∧ res.length < rows hps.length := by
+  obtain ⟨h1, h2⟩ := intersectHalfplanesWith_unfold rows hps res h
   refine ⟨?_, h2⟩
-  have := foldlM_inv (ihStep hps (bufferRows hps.length))
-    (fun acc => (∀ p ∈ acc, FromPair hps p) ∧ acc.length ≤ bufferRows hps.length)
+  have := foldlM_inv (ihStep hps (rows hps.length))
+    (fun acc => (∀ p ∈ acc, FromPair hps p) ∧ acc.length ≤ rows hps.length)
     (fun ij => ij.1 < ij.2)
     (fun b c b' hq hp hs => ihStep_inv hps _ b c b' hq hp hs)
     (pairIdx hps.length) [] res (fun c hc => (mem_pairIdx hc).1) ⟨by simp, by simp⟩ h1
   exact this.1
+
+/-- `intersect_halfplanes` as it is now: at most one point per pair `i < j` -/
+theorem intersectHalfplanes_spec (hps : List (HP ℝ)) (res : List (V2 ℝ))
+    (h : intersectHalfplanes hps = .ok res) :
+    (∀ p ∈ res, FromPair hps p) ∧ res.length ≤ hps.length * (hps.length - 1) / 2 := by
+  obtain ⟨h1, h2⟩ := intersectHalfplanesWith_spec bufferRows hps res h
+  exact ⟨h1, Nat.lt_succ_iff.mp h2⟩
+
+/-- the same before the repair: fewer than `3 n` points -/
+theorem intersectHalfplanes_before_fix_spec (hps : List (HP ℝ)) (res : List (V2 ℝ))
+    (h : intersectHalfplanes_asIs_before_fix hps = .ok res) :
+    (∀ p ∈ res, FromPair hps p) ∧ res.length < 3 * hps.length :=
+  intersectHalfplanesWith_spec bufferRows_asIs_before_fix hps res h
 
 /-! ### the buffer: when it suffices, when it overflows -/
 
@@ -207,27 +225,95 @@ theorem foldl_progress (hps : List (HP ℝ)) (cap : Nat) :
     rw [List.foldlM_cons, h1]
     exact h2
 
+/-- whenever the buffer has more rows than there are pairs, neither the checked write nor the
+assertion can fail -/
+theorem intersectHalfplanesWith_ok (rows : Nat → Nat) (hps : List (HP ℝ))
+    (hrows : (pairIdx hps.length).length < rows hps.length) :
+    ∃ res, intersectHalfplanesWith rows hps = .ok res ∧ res.length ≤ (pairIdx hps.length).length := by
+  obtain ⟨res, hres, hl⟩ := foldl_progress hps (rows hps.length) (pairIdx hps.length) []
+    (fun ij hij => by
+      have := mem_pairIdx hij
+      exact ⟨by omega, this.2⟩)
+    (by simp only [List.length_nil]; omega)
+  simp only [List.length_nil, Nat.zero_add] at hl
+  refine ⟨res, ?_, hl⟩
+  unfold intersectHalfplanesWith
+  simp only [hres]
+  have : res.length < rows hps.length := by omega
+  simp [bind, Except.bind, this]
+
+/-! #### the number of pairs -/
+
+theorem countP_lt_range (i : Nat) : ∀ n, ((List.range n).filter fun j => decide (i < j)).length = n - (i + 1)
+  | 0 => by simp
+  | n + 1 => by
+    rw [List.range_succ, List.filter_append, List.length_append, countP_lt_range i n]
+    by_cases h : i < n
+    · simp [h]; omega
+    · simp [h]; omega
+
+theorem innerPairs_length (n i : Nat) :
+    ((List.range n).filterMap fun j => if i < j then some (i, j) else none).length = n - (i + 1) := by
+  rw [← countP_lt_range i n]
+  generalize List.range n = L
+  induction L with
+  | nil => rfl
+  | cons j L ih =>
+    by_cases h : i < j <;> simp [h, ih]
+
+/-- twice the number of pairs visited with first index below `m`, for `m ≤ n` -/
+theorem pairPrefix_length (n : Nat) : ∀ m, m ≤ n →
+    2 * ((List.range m).flatMap fun i =>
+      (List.range n).filterMap fun j => if i < j then some (i, j) else none).length + m * (m + 1) =
+      2 * n * m
+  | 0, _ => by simp
+  | m + 1, hm => by
+    have ih := pairPrefix_length n m (by omega)
+    rw [List.range_succ, List.flatMap_append, List.length_append]
+    simp only [List.flatMap_cons, List.flatMap_nil, List.append_nil, innerPairs_length]
+    have e1 : (m + 1) * (m + 1 + 1) = m * (m + 1) + 2 * (m + 1) := by ring
+    have e2 : 2 * n * (m + 1) = 2 * n * m + 2 * n := by ring
+    rw [e1, e2]
+    omega
+
+/-- the double loop `for i in range(n): for j in range(i + 1, n)` visits `n (n-1) / 2` pairs -/
+theorem pairIdx_length (n : Nat) : (pairIdx n).length = n * (n - 1) / 2 := by
+  have h := pairPrefix_length n n (le_refl n)
+  unfold pairIdx
+  have e : n * (n - 1) + n = n * n := by
+    cases n with
+    | zero => rfl
+    | succ k => simp only [Nat.add_sub_cancel]; ring
+  have e2 : 2 * n * n = 2 * (n * n) := by ring
+  have e3 : n * (n + 1) = n * n + n := by ring
+  rw [e2, e3] at h
+  omega
+
+/-- **the buffer suffices, unconditionally.**  With `n (n-1) / 2 + 1` rows the store
+`points[n_intersections] = p` is always in range and the assertion
+`n_intersections < len(points)` always holds: `intersect_halfplanes` returns normally for
+every list of half-planes (the empty one included), with at most one point per pair `i < j`. -/
+theorem intersectHalfplanes_total (hps : List (HP ℝ)) :
+    ∃ res, intersectHalfplanes hps = .ok res ∧ res.length ≤ hps.length * (hps.length - 1) / 2 := by
+  obtain ⟨res, h, hl⟩ := intersectHalfplanesWith_ok bufferRows hps
+    (by rw [pairIdx_length]; simp [bufferRows])
+  rw [pairIdx_length] at hl
+  exact ⟨res, h, hl⟩
+
+/-! #### before the repair: `3 n` rows -/
+
 theorem pairIdx_length_small : ∀ n, 1 ≤ n → n ≤ 6 → (pairIdx n).length < 3 * n := by
   intro n h1 h6
   have : n = 1 ∨ n = 2 ∨ n = 3 ∨ n = 4 ∨ n = 5 ∨ n = 6 := by omega
   rcases this with rfl | rfl | rfl | rfl | rfl | rfl <;> decide
 
-/-- with `1 ≤ n ≤ 6` half-planes there are at most `n (n-1) / 2 < 3 n` pairs: neither the write
-nor the assertion can fail -/
-theorem intersectHalfplanes_ok_of_le_six (hps : List (HP ℝ)) (h1 : 1 ≤ hps.length)
-    (h6 : hps.length ≤ 6) : ∃ res, intersectHalfplanes hps = .ok res := by
-  have hlen := pairIdx_length_small hps.length h1 h6
-  obtain ⟨res, hres, hl⟩ := foldl_progress hps (bufferRows hps.length) (pairIdx hps.length) []
-    (fun ij hij => by
-      have := mem_pairIdx hij
-      exact ⟨by omega, this.2⟩)
-    (by simp only [bufferRows, List.length_nil]; omega)
-  refine ⟨res, ?_⟩
-  unfold intersectHalfplanes
-  simp only [hres]
-  have : res.length < bufferRows hps.length := by
-    simp only [bufferRows, List.length_nil] at hl ⊢; omega
-  simp [bind, Except.bind, this]
+/-- before the repair: with `1 ≤ n ≤ 6` half-planes there are at most `n (n-1) / 2 < 3 n` pairs:
+neither the write nor the assertion could fail -/
+theorem intersectHalfplanes_before_fix_ok_of_le_six (hps : List (HP ℝ)) (h1 : 1 ≤ hps.length)
+    (h6 : hps.length ≤ 6) : ∃ res, intersectHalfplanes_asIs_before_fix hps = .ok res := by
+  obtain ⟨res, h, _⟩ := intersectHalfplanesWith_ok bufferRows_asIs_before_fix hps
+    (pairIdx_length_small hps.length h1 h6)
+  exact ⟨res, h⟩
 
 /-- all half-planes pass through the origin of the plane coordinates -/
 def ThroughOrigin (hps : List (HP ℝ)) : Prop := ∀ h ∈ hps, h.p = ⟨0, 0⟩
@@ -293,31 +379,51 @@ theorem foldl_concurrent (hps : List (HP ℝ)) (ho : ThroughOrigin hps) (hc : Pa
       simp only [bind, Except.bind, List.length_cons]
       rw [if_neg (by omega)]
 
-/-- **buffer overflow**: half-planes through one point whose lines cross pairwise produce
-`n (n-1) / 2` valid intersections; if that exceeds `3 n` the checked write fails -/
-theorem concurrent_overflow (hps : List (HP ℝ)) (ho : ThroughOrigin hps) (hc : PairwiseCrossing hps)
-    (hbig : 3 * hps.length < (pairIdx hps.length).length) :
-    intersectHalfplanes hps = .error .indexOOB := by
-  unfold intersectHalfplanes
+/-- **buffer overflow before the repair**: half-planes through one point whose lines cross pairwise
+produce `n (n-1) / 2` valid intersections; if that exceeds `3 n` the checked write fails -/
+theorem concurrent_overflow_before_fix (hps : List (HP ℝ)) (ho : ThroughOrigin hps)
+    (hc : PairwiseCrossing hps) (hbig : 3 * hps.length < (pairIdx hps.length).length) :
+    intersectHalfplanes_asIs_before_fix hps = .error .indexOOB := by
+  unfold intersectHalfplanes_asIs_before_fix intersectHalfplanesWith
   simp only
   rw [foldl_concurrent hps ho hc _ _ [] (by simp) (fun ij hij => mem_pairIdx hij)]
-  simp only [List.length_nil, Nat.zero_add, bufferRows]
+  simp only [List.length_nil, Nat.zero_add, bufferRows_asIs_before_fix]
   rw [if_neg (by omega)]
   rfl
 
-/-- with exactly `3 n` valid intersections every write succeeds and the strict assertion fails -/
-theorem concurrent_assert (hps : List (HP ℝ)) (ho : ThroughOrigin hps) (hc : PairwiseCrossing hps)
-    (hbig : 3 * hps.length = (pairIdx hps.length).length) :
-    intersectHalfplanes hps = .error .assertFail := by
-  unfold intersectHalfplanes
+/-- before the repair: with exactly `3 n` valid intersections every write succeeds and the strict
+assertion fails -/
+theorem concurrent_assert_before_fix (hps : List (HP ℝ)) (ho : ThroughOrigin hps)
+    (hc : PairwiseCrossing hps) (hbig : 3 * hps.length = (pairIdx hps.length).length) :
+    intersectHalfplanes_asIs_before_fix hps = .error .assertFail := by
+  unfold intersectHalfplanes_asIs_before_fix intersectHalfplanesWith
   simp only
   rw [foldl_concurrent hps ho hc _ _ [] (by simp) (fun ij hij => mem_pairIdx hij)]
-  simp only [List.length_nil, Nat.zero_add, bufferRows]
+  simp only [List.length_nil, Nat.zero_add, bufferRows_asIs_before_fix]
   rw [if_pos (by omega)]
   simp [bind, Except.bind, hbig]
 
-theorem empty_assert : intersectHalfplanes ([] : List (HP ℝ)) = .error .assertFail := by
-  simp [intersectHalfplanes, pairIdx, bufferRows, bind, Except.bind, pure, Except.pure]
+theorem empty_assert_before_fix :
+    intersectHalfplanes_asIs_before_fix ([] : List (HP ℝ)) = .error .assertFail := by
+  simp [intersectHalfplanes_asIs_before_fix, intersectHalfplanesWith, pairIdx,
+    bufferRows_asIs_before_fix, bind, Except.bind, pure, Except.pure]
+
+/-- **after the repair** the same inputs return every pairwise intersection: one copy of the
+common point per pair -/
+theorem concurrent_fixed (hps : List (HP ℝ)) (ho : ThroughOrigin hps) (hc : PairwiseCrossing hps) :
+    intersectHalfplanes hps = .ok (List.replicate (pairIdx hps.length).length ⟨0, 0⟩) := by
+  unfold intersectHalfplanes intersectHalfplanesWith
+  simp only
+  rw [foldl_concurrent hps ho hc _ _ [] (by simp) (fun ij hij => mem_pairIdx hij)]
+  have hlt : (pairIdx hps.length).length < bufferRows hps.length := by
+    rw [pairIdx_length]; simp [bufferRows]
+  simp only [List.length_nil, Nat.zero_add, List.nil_append]
+  rw [if_pos (by omega)]
+  simp [bind, Except.bind, hlt]
+
+theorem empty_fixed : intersectHalfplanes ([] : List (HP ℝ)) = .ok [] := by
+  simp [intersectHalfplanes, intersectHalfplanesWith, pairIdx, bufferRows, bind, Except.bind, pure,
+    Except.pure]
 
 end Hydro
 end D3
